@@ -867,6 +867,77 @@ theorem rwpImgToImage_spec (fmt : Fmt) (W H : Nat) (data : Array Byte) (tw th : 
   exact paint_raster H W _ _ _ (covered fmt W data) (expandM fmt W data)
     (Img.fill tw th black) (Img.fill_wf tw th black) (fun img r k _ _ => rwpBody_eq fmt W data _ _ img r k)
 
+/-- frame of a painting loop: a target pixel that no covered source pixel maps to keeps the value it had -/
+theorem paint_raster_frame (H W : Nat) (body : Img → Nat → Nat → Option Img) (ox oy : Int)
+    (cov : Nat → Nat → Prop) [∀ x y, Decidable (cov x y)] (E : Nat → Nat → RGBA) (img0 : Img) (hwf0 : img0.WF)
+    (hbody : ∀ img r k, r < H → k < W →
+      body img r k = some (if cov k r then img.setPx (k + ox) (r + oy) (E k r) else img)) :
+    ∃ img, raster H W body img0 = some img ∧
+      ∀ (X Y : Int), (¬ ∃ x y : Nat, x < W ∧ y < H ∧ cov x y ∧ (x : Int) + ox = X ∧ (y : Int) + oy = Y) →
+        img.at X Y = img0.at X Y := by
+  obtain ⟨s', hs, hinv⟩ := raster_inv H W body
+    (fun r k (img : Img) => img.WF ∧ img.w = img0.w ∧ img.h = img0.h ∧
+      ∀ (X Y : Int), (¬ ∃ x y : Nat, x < W ∧ before r k x y ∧ cov x y ∧ (x : Int) + ox = X ∧ (y : Int) + oy = Y) →
+        img.at X Y = img0.at X Y)
+    img0
+    (by exact ⟨hwf0, rfl, rfl, fun _ _ _ => rfl⟩)
+    (by
+      rintro r img hr ⟨h1, h2, h3, h4⟩
+      refine ⟨h1, h2, h3, ?_⟩
+      intro X Y hn
+      exact h4 X Y (fun ⟨x, y, hx, hb, hc, e1, e2⟩ => hn ⟨x, y, hx, (before_wrap hx).2 hb, hc, e1, e2⟩))
+    (by
+      rintro r k img hr hk ⟨h1, h2, h3, h4⟩
+      refine ⟨_, hbody img r k hr hk, ?_⟩
+      by_cases hc : cov k r
+      · rw [if_pos hc]
+        refine ⟨Img.setPx_wf _ _ _ _ h1, by rw [Img.setPx_w, h2], by rw [Img.setPx_h, h3], ?_⟩
+        intro X Y hn
+        rw [Img.at_setPx _ h1]
+        have hne : ¬ (X = k + ox ∧ Y = r + oy ∧ 0 ≤ (k : Int) + ox ∧ (k : Int) + ox < img.w ∧ 0 ≤ (r : Int) + oy ∧ (r : Int) + oy < img.h) := by
+          rintro ⟨e1, e2, _⟩
+          exact hn ⟨k, r, hk, before_succ.2 (Or.inr ⟨rfl, rfl⟩), hc, e1.symm, e2.symm⟩
+        rw [if_neg hne]
+        exact h4 X Y (fun ⟨x, y, hx, hb, hcv, e1, e2⟩ => hn ⟨x, y, hx, before_succ.2 (Or.inl hb), hcv, e1, e2⟩)
+      · rw [if_neg hc]
+        refine ⟨h1, h2, h3, ?_⟩
+        intro X Y hn
+        exact h4 X Y (fun ⟨x, y, hx, hb, hcv, e1, e2⟩ => hn ⟨x, y, hx, before_succ.2 (Or.inl hb), hcv, e1, e2⟩))
+  refine ⟨s', hs, ?_⟩
+  intro X Y hn
+  exact hinv.2.2.2 X Y (fun ⟨x, y, hx, hb, hcv, e1, e2⟩ => by
+    have hy : y < H := by unfold before at hb; omega
+    exact hn ⟨x, y, hx, hy, hcv, e1, e2⟩)
+
+theorem Img.at_fill (w h : Nat) (c : RGBA) (x y : Int) (hx : 0 ≤ x ∧ x < w) (hy : 0 ≤ y ∧ y < h) :
+    (Img.fill w h c).at x y = c := by
+  unfold Img.at Img.fill
+  simp only []
+  rw [if_pos ⟨hx.1, hx.2, hy.1, hy.2⟩]
+  obtain ⟨X, hX⟩ := Int.eq_ofNat_of_zero_le hx.1
+  obtain ⟨Y, hY⟩ := Int.eq_ofNat_of_zero_le hy.1
+  subst hX hY
+  simp only [Int.toNat_natCast]
+  have hlt : Y * w + X < w * h := idx_lt w h X Y (by omega) (by omega)
+  rw [Array.getD_eq_getD_getElem?, Array.getElem?_replicate, if_pos hlt]
+  rfl
+
+/-- `RwpImgToImage`: every pixel of the target canvas that no *covered* pixel of the image lands on is black — the
+canvas around the image, and the positions of pixels the data do not reach -/
+theorem rwpImgToImage_frame (fmt : Fmt) (W H : Nat) (data : Array Byte) (tw th : Nat) :
+    ∃ img, rwpImgToImage fmt W H data tw th = some img ∧
+      ∀ (X Y : Int), 0 ≤ X → X < tw → 0 ≤ Y → Y < th →
+        (¬ ∃ x y : Nat, x < W ∧ y < H ∧ covered fmt W data x y ∧
+          (x : Int) + ((tw : Int) - W).tdiv 2 = X ∧ (y : Int) + ((th : Int) - H).tdiv 2 = Y) →
+        img.at X Y = black := by
+  unfold rwpImgToImage
+  obtain ⟨img, h1, h2⟩ := paint_raster_frame H W _ _ _ (covered fmt W data) (expandM fmt W data)
+    (Img.fill tw th black) (Img.fill_wf tw th black) (fun img r k _ _ => rwpBody_eq fmt W data _ _ img r k)
+  refine ⟨img, h1, ?_⟩
+  intro X Y a1 a2 a3 a4 hn
+  rw [h2 X Y hn]
+  exact Img.at_fill tw th black X Y ⟨a1, a2⟩ ⟨a3, a4⟩
+
 theorem copyInto_size {α : Type} (dst src : Array α) : (copyInto dst src).size = dst.size := by
   simp [copyInto]
 
